@@ -90,6 +90,11 @@ CHECKS = {
             "escape on/off, hooks on/off, cached and uncached, in exact-size or guard-page-backed read-only buffers; deepest "
             "nesting also on the default stack without instrumentation.",
             "only executed paths; red-zone tools miss far and intra-object overflows; templates <= 4 KiB except the narrow family", "3/C01"),
+    "C17": ("ThreadSanitizer race detection + output/state comparison monitors over shared-cache concurrent and repeated renders",
+            "Generated templates parsed once and rendered concurrently from 2-16 threads sharing the tag array and value under "
+            "TSan; outputs compared with fresh renders, value/template/cache checked unchanged (template in a read-only "
+            "mapping); sequential cache reuse with different values and pre-filled streams.",
+            "schedules are sampled; TSan is happens-before based and only sees executed code", "3/C17"),
 }
 
 PENDING = {}
